@@ -312,6 +312,33 @@ def build_cf2d(spec):
         bounds_target = coords if g.get("bounds_as") == "coord" else data_vars
         bounds_target[n["lat"] + "_bnds"] = (dims + ["nv"], by, {})
         bounds_target[n["lon"] + "_bnds"] = (dims + ["nv"], bx, {})
+    elif g.get("bad_bounds"):
+        # bounds variables that do not have the (y, x, 4) layout: emsarray must refuse them
+        # (ConventionViolationWarning) and synthesise the cells as if there were none
+        bx = numpy.full((nj, ni, 4), numpy.nan)
+        by = numpy.full((nj, ni, 4), numpy.nan)
+        for j in range(nj):
+            for i in range(ni):
+                if holes[j][i]:
+                    continue
+                for c, (a, b) in enumerate(cell_corner_nodes(j, i)):
+                    bx[j, i, c] = nodes[a][b][0]
+                    by[j, i, c] = nodes[a][b][1]
+        layout = g["bad_bounds"]
+        if layout == "xy4":
+            bdims, perm = [n["x"], n["y"], "nv"], (1, 0, 2)
+        elif layout == "4yx":
+            bdims, perm = ["nv", n["y"], n["x"]], (2, 0, 1)
+        elif layout == "yx3":
+            bdims, perm = [n["y"], n["x"], "nv3"], (0, 1, 2)
+            bx, by = bx[:, :, :3], by[:, :, :3]
+        else:
+            raise ValueError(layout)
+        lat_attrs["bounds"] = n["lat"] + "_bnds"
+        lon_attrs["bounds"] = n["lon"] + "_bnds"
+        bounds_target = coords if g.get("bounds_as") == "coord" else data_vars
+        bounds_target[n["lat"] + "_bnds"] = (bdims, numpy.ascontiguousarray(by.transpose(perm)), {})
+        bounds_target[n["lon"] + "_bnds"] = (bdims, numpy.ascontiguousarray(bx.transpose(perm)), {})
     target = coords if g["coords_as"] == "coord" else data_vars
     if g.get("decoy_first"):
         # a static (j, i) variable without standard_name, placed before the coordinates
@@ -586,6 +613,11 @@ def build_raw(spec):
         if var.get("fill") is not None:
             vattrs[var["fill"][0]] = NP_DTYPES[var["dtype"]](var["fill"][1])
         data_vars[var["name"]] = (var_dim_names(spec, var), raw_array(spec, var), vattrs)
+
+    for dim, labels in (spec.get("dim_coords") or {}).items():
+        # a dimension coordinate on a grid dimension: labels that are NOT the positions
+        if dim not in coords and dim not in data_vars:
+            coords[dim] = ([dim], numpy.array(labels, dtype=numpy.int64), {})
 
     order = spec.get("var_order")
     if order:
